@@ -760,6 +760,29 @@ func (e *Exec) evalCall(x ECall, env *Env) Val {
 		v := arg(0)
 		h, hs := e.elemHeap(types.Typ[types.Uint8])
 		return Val{T: "(key48 " + Sel(e.get(env.st, h, hs), e.sbase(v.T)) + " " + e.soff(v.T) + " " + e.slen(v.T) + ")", S: ArrSort(SInt, SInt), Ty: types.NewArray(types.Typ[types.Uint8], 48)}
+	case "fieldaddr":
+		// fieldaddr(p, "f"): the address of the (struct-typed) field f of the struct p points to
+		v := arg(0)
+		fs, ok := x.Args[1].(EStr)
+		if !ok || v.Ty == nil {
+			e.unsupported("fieldaddr(pointer, \"field\")")
+		}
+		pt, ok := v.Ty.Underlying().(*types.Pointer)
+		if !ok {
+			e.unsupported("fieldaddr: not a pointer")
+		}
+		su, ok := pt.Elem().Underlying().(*types.Struct)
+		if !ok {
+			e.unsupported("fieldaddr: not a pointer to a struct")
+		}
+		for i := 0; i < su.NumFields(); i++ {
+			if su.Field(i).Name() == fs.Val {
+				h, _, _ := e.fieldHeap(pt.Elem(), i)
+				return Val{T: e.subRef(h, v.T), S: SInt, Ty: types.NewPointer(su.Field(i).Type())}
+			}
+		}
+		e.unsupported("fieldaddr: no field %s", fs.Val)
+		return Val{}
 	case "bkey48":
 		// bkey48(b): the [48]byte value obtained by copying the bytes b into a zeroed [48]byte
 		b := arg(0)
